@@ -20,6 +20,9 @@ CLAIMED = {
  "C18": dict(
    text="offset lemmas (roffset/woffset) for arbitrary 64-bit positions; one-step refinement of the memory and file backed stores (readSomeAt from an arbitrary offset and write position: exact bytes or ErrInvalidOffset exactly when overwritten/future; writeSome; dataRange) against a ghost stream; sequential API behaviour (Reader, SeekTo/IsValid, wrap beyond capacity, close); protocol runs with one writer and up to two blocked readers under every interleaving (Broadcast wake-up, close wakes all with an error, no deadlock)",
    note=NOTE_COMMON + "concrete ring sizes in the lemmas; step lemmas on an 8-byte ring; induction over histories on paper; sync primitives are engine primitives; *os.File is a byte-store stub in the file flavour"),
+ "C20": dict(
+   text="getRedisNodeState on INFO text with symbolic filler against a reference role parser, and GetSlotState/recursiveGetSlotState with an injected connection factory whose outcome per node and per retry round (connect error, command error, master, slave, no role, role not at line start) is a solver-visible choice: chosen source reported master in the deciding round, every other known node listed once as replica, erroring nodes never chosen, exactly maxRetries+1 rounds then an error when no master exists",
+   note=NOTE_COMMON + "<= 3 nodes x <= 2 rounds quick (4 nodes / 3 rounds thorough); time.Sleep has no duration; the real network factory is outside"),
  "C10": dict(
    text="18 value-tree skeletons (depth <= 3, payloads <= 3 symbolic bytes, small symbolic integers, nil vs empty) encoded with the real encoder, embedded in a stream with keep-alive newlines and a following value, decoded with the real decoder over real bufio: equality, exact byte position and intact remainder asserted for all payload values; integers across the imap boundaries; inline commands; corruption families (CR, LF, non-numeric and negative lengths, unknown type in array, every truncation point) must yield an error; ParseArgs/ChangeArgsToResp round trip",
    note=NOTE_COMMON + "shapes are enumerated concretely, contents are symbolic; text lines exclude LF; integers restricted to the listed ranges and edge values"),
